@@ -1,22 +1,13 @@
-"""Property registry: what each check builds and runs (budgets per tier)."""
+"""Property registry: one file per claimed property under propdefs/ (SPEC = what the check builds and
+runs, budgets per tier; META = the MANIFEST text)."""
+import importlib.util, os, glob
 
-PROPS = {
-    "C19": {
-        "corr": [{"kind": "reader", "quick": 20000, "thorough": 2000000}],
-        "rule": "random buffers (0..64 octets) x random sequences of 0..40 reader operations with lengths around "
-                "-3..3 and remaining-3..remaining+3; non-trivial = at least one successful operation; distinct = distinct case line",
-        "assumptions": ["Go slice semantics as transcribed in Vflow.Model.Reader"],
-    },
-}
-
-META = {
-    "C19": {
-        "text": "Lean theorems over every buffer, every finite sequence of the reader operations and every Int length "
-                "(run_accounting, read_spec, uint_spec, fail_unchanged, peek_*); the model is tied to reader/reader.go by "
-                "running both on the same random operation sequences and by an independent slice-arithmetic oracle.",
-        "ref": "DESIGN.md §6 C19",
-        "note": "Trusted: Lean kernel; hand-written model Vflow.Model.Reader (Go slice semantics transcribed); the "
-                "correspondence harness and its generator bound what the tie sees.",
-        "technique": "Lean 4 proof by induction over operation sequences + differential correspondence with reader.Reader",
-    },
-}
+PROPS, META = {}, {}
+for _p in sorted(glob.glob(os.path.join(os.path.dirname(os.path.abspath(__file__)), "propdefs", "C*.py"))):
+    _id = os.path.basename(_p)[:-3]
+    _s = importlib.util.spec_from_file_location("propdefs." + _id, _p)
+    _m = importlib.util.module_from_spec(_s)
+    _s.loader.exec_module(_m)
+    if getattr(_m, "SPEC", None) is not None:
+        PROPS[_id] = _m.SPEC
+    META[_id] = getattr(_m, "META", {})
